@@ -19,7 +19,7 @@ CLAIMED = {
  "C15": ("merge operand lists nested 0-3 deep; in with re-spelled numbers, nested containers, key order, non-ASCII substrings; model plus length / order laws; replay of the distilled libFuzzer corpus of fz_coll (campaign in the thorough tier)", "proptest + libFuzzer; oracle = reference model + algebraic laws"),
  "C16": ("all strings up to length 3 over a mixed-width alphabet x start/length -5..5 enumerated, generated strings with 64-bit extremes; char-vector model, split law substr(s,0,i)++substr(s,i)==s, cat piecewise law; replay of the distilled libFuzzer corpus of fz_str (campaign in the thorough tier)", "proptest + enumerated cube + libFuzzer; oracle = character-vector model + metamorphic laws"),
  "C17": ("generated call histories (pools of rules and data, repeats, clones, concurrent batches on shared values, reversed re-run) in a never-reset worker process, log storms from 4-8 threads, deep rules evaluated by up to 16 threads at once, sequences of freshly parsed and freed same-length inputs, comparison with a fresh process, and a fresh process under a hostile environment (every ALL-CAPS identifier of the binary set, other locale / time zone / directory): every call equals its isolated result and the model, inputs unchanged, stdout exactly the intact log lines, stderr empty", "proptest over histories (vec of ops + interpreter); oracle = isolation / determinism invariants + reference model"),
- "C18": ("generated rule/data texts (valid, invalid, log, leading minus, whitespace) x three data channels against the in-process library; exit codes, stdout lines, chaining", "proptest driving the real binary; oracle = in-process library differential"),
+ "C18": ("generated rule/data texts (valid, invalid, log, leading minus, whitespace) x three data channels against the in-process library; exit codes, stdout lines, chaining; working directory holding files named like the arguments; standard output on a pseudo-terminal", "proptest driving the real binary; oracle = in-process library differential"),
  "C19": ("Hypothesis-generated JSON-representable Python objects (big ints, nan / inf, astral text, lone surrogates, long strings), both entry points, all combinations of omitted / supplied optional arguments, malformed texts, in-interpreter histories over ==-equal scalars, dev and release builds of the extension; against the library linked into an oracle server, type- and sign-strict; the caller's objects must be unchanged after a call; calls repeated with every ALL-CAPS identifier of the module set in os.environ", "Hypothesis; oracle = library differential via oracle server, exception-type contract"),
 }
 DONE = sys.argv[1:]  # property ids implemented so far
